@@ -70,7 +70,27 @@ fi
 
 RACE=""
 case "$ID" in C13) RACE="-race";; esac
-BIN="$HERE/bin/check.$TAG${RACE:+.race}"
-( cd "$HERE/harness" && go build $RACE -tags verif -modfile="$MODFILE" -o "$BIN.$$" ./cmd/check && mv "$BIN.$$" "$BIN" ) || {
+# Thorough runs are built with coverage instrumentation of the library so that
+# the evidence can state which share of its statements the workload executed
+# (evidence only, never a verdict).
+COVER=""; COVDIR=""
+if [ "$TIER" = "thorough" ] && [ -z "${VERIF_REPLAY_KEY:-}" ]; then
+  COVER="-cover -coverpkg=github.com/bufbuild/connect-go,verif.local/harness/cmd/check"
+  COVDIR="$VERIF_OUT/logs/cover.$ID"; rm -rf "$COVDIR"; mkdir -p "$COVDIR"
+  export GOCOVERDIR="$COVDIR"
+fi
+BIN="$HERE/bin/check.$TAG${RACE:+.race}${COVER:+.cover}"
+( cd "$HERE/harness" && go build $RACE $COVER -tags verif -modfile="$MODFILE" -o "$BIN.$$" ./cmd/check && mv "$BIN.$$" "$BIN" ) || {
   echo "harness build failed against $REPO" >&2; rm -f "$BIN.$$"; exit 2; }
-exec "$BIN" "$ID" "$TIER"
+"$BIN" "$ID" "$TIER"
+RC=$?
+if [ -n "$COVDIR" ] && [ -f "$VERIF_OUT/evidence/$ID.json" ]; then
+  PCT="$(go tool covdata percent -i="$COVDIR" 2>/dev/null | grep 'bufbuild/connect-go[[:space:]]' | sed -E 's/.*coverage: ([0-9.]+)%.*/\1/' | head -1)"
+  if [ -n "$PCT" ]; then
+    FUNCS="$(go tool covdata func -i="$COVDIR" 2>/dev/null | grep 'bufbuild/connect-go/[a-z_]*\.go' | awk '{f=$1; sub(/:.*/,"",f); sub(/.*\//,"",f); p=$NF; sub(/%/,"",p); s[f]+=p; n[f]++} END {for (f in s) printf "%s=%.0f ", f, s[f]/n[f]}')"
+    TMPJ="$(mktemp)"
+    jq --arg pct "$PCT" --arg funcs "$FUNCS" '.coverage.library_statement_coverage_percent = ($pct|tonumber) | .coverage.library_mean_function_coverage_by_file = $funcs' "$VERIF_OUT/evidence/$ID.json" > "$TMPJ" && mv "$TMPJ" "$VERIF_OUT/evidence/$ID.json"
+  fi
+  rm -rf "$COVDIR"
+fi
+exit $RC
